@@ -1,1 +1,138 @@
 """further Gen modules register themselves into gen.MODULES"""
+import ast
+import re
+
+from .gen import MODULES, HEADER, parse, find_def, ExtractError
+from .py2lean import Translator
+
+
+# ------------------------------------------------------------------ Collection (C20)
+def _branch_assigns(stmts):
+    out = {}
+    for s in stmts:
+        if isinstance(s, ast.Assign) and len(s.targets) == 1 and isinstance(s.targets[0], ast.Name):
+            out[s.targets[0].id] = s.value
+    return out
+
+
+def _sel_expr(e, env, hdul_ok):
+    """Translate the tiny expression language of _scan_hdus' selection branches into Lean.
+    env: python source text -> (lean term, type in {'Int','List','OptInt','Str','ListStr','OptStr'})"""
+    src = ast.unparse(e)
+    if src in env:
+        return env[src]
+    if isinstance(e, ast.Subscript):
+        base, tb = _sel_expr(e.value, env, hdul_ok)
+        idx, ti = _sel_expr(e.slice, env, hdul_ok)
+        if tb == "Hdul":
+            if not hdul_ok:
+                raise ExtractError("nested hdul subscript")
+            # reading HDU number idx of the file: idx must be an integer (or optional integer)
+            if ti == "Int":
+                return (f"(some {idx})", "OptInt")
+            if ti == "OptInt":
+                return (idx, "OptInt")
+            # a list used as an index: keep it, Lean will reject the definition (type error) —
+            # that is the proof obligation breaking, the harness then searches for the failing input
+            return (idx, ti)
+        if tb == "List" and ti == "Nat":
+            return (f"{base}[{idx}]?", "OptInt")
+        if tb == "ListStr" and ti == "Nat":
+            return (f"{base}[{idx}]?", "OptStr")
+        raise ExtractError(f"unsupported subscript {src}")
+    if isinstance(e, ast.Constant) and isinstance(e.value, str):
+        return (f"\"{e.value}\"", "Str")
+    raise ExtractError(f"unsupported selection expression {src}")
+
+
+def gen_collection():
+    tree = parse("toasty/collection.py")
+    fn = find_def(tree, "SimpleFitsCollection._scan_hdus")
+    out = HEADER.format(src="toasty/collection.py") + "namespace Gen\nnamespace Scan\n\n"
+    # locate the `if isinstance(self._hdu_index, int): ... elif self._hdu_index is not None: ... else: for ...`
+    chain = None
+    for node in ast.walk(fn):
+        if isinstance(node, ast.If) and ast.unparse(node.test) == "isinstance(self._hdu_index, int)":
+            chain = node
+    if chain is None:
+        raise ExtractError("scalar branch of the HDU selection not found")
+    if not (len(chain.orelse) == 1 and isinstance(chain.orelse[0], ast.If) and ast.unparse(chain.orelse[0].test) == "self._hdu_index is not None"):
+        raise ExtractError("list branch of the HDU selection not found")
+    lst = chain.orelse[0]
+    sc = _branch_assigns(chain.body)
+    li = _branch_assigns(lst.body)
+    for br, name in ((sc, "scalar"), (li, "list")):
+        if set(br) != {"hdu_index", "hdu"}:
+            raise ExtractError(f"{name} branch assigns {sorted(br)}")
+    # scalar branch: self._hdu_index : Int
+    env = {"self._hdu_index": ("k", "Int"), "hdul": ("hdul", "Hdul"), "path_index": ("i", "Nat")}
+    rep, t = _sel_expr(sc["hdu_index"], env, True)
+    env2 = dict(env, hdu_index=(rep, t))
+    rd, t2 = _sel_expr(sc["hdu"], env2, True)
+    out += f"/-- scalar `hdu_index = k`: the index reported for file `i` -/\ndef scalar_reported (k : Int) (i : Nat) : Int := {rep}\n"
+    out += f"/-- scalar `hdu_index = k`: the HDU actually read from file `i` -/\ndef scalar_read (k : Int) (i : Nat) : Option Int := {rd}\n\n"
+    env = {"self._hdu_index": ("ks", "List"), "hdul": ("hdul", "Hdul"), "path_index": ("i", "Nat")}
+    rep, t = _sel_expr(li["hdu_index"], env, True)
+    env2 = dict(env, hdu_index=(rep, t))
+    rd, t2 = _sel_expr(li["hdu"], env2, True)
+    out += f"/-- list `hdu_index = ks`: the index reported for file `i` -/\ndef list_reported (ks : List Int) (i : Nat) : Option Int := {rep}\n"
+    out += f"/-- list `hdu_index = ks`: the HDU actually read from file `i` -/\ndef list_read (ks : List Int) (i : Nat) : Option Int := {rd}\n\n"
+    # guess branch: for hdu_index, hdu in enumerate(hdul): if COND: break
+    if not (len(lst.orelse) == 1 and isinstance(lst.orelse[0], ast.For)):
+        raise ExtractError("guess branch is not a single for loop")
+    loop = lst.orelse[0]
+    if ast.unparse(loop.target) != "(hdu_index, hdu)" or ast.unparse(loop.iter) != "enumerate(hdul)":
+        raise ExtractError("guess loop header changed: " + ast.unparse(loop.target) + " in " + ast.unparse(loop.iter))
+    if not (len(loop.body) == 1 and isinstance(loop.body[0], ast.If) and len(loop.body[0].body) == 1 and isinstance(loop.body[0].body[0], ast.Break) and not loop.orelse):
+        raise ExtractError("guess loop body is not `if COND: break`")
+    cond = ast.unparse(loop.body[0].test)
+    c2 = cond.replace("hasattr(hdu, 'shape')", "(has_shape != 0)").replace("len(hdu.shape)", "ndim")
+    c2 = re.sub(r"type\(hdu\) is not fits\.hdu\.table\.BinTableHDU", "(is_bintable == 0)", c2)
+    tr = Translator("Int")
+    e = ast.parse(c2, mode="eval").body
+    body = tr.cond(e, {"vars": {"has_shape", "ndim", "is_bintable"}, "objs": {}, "poss": set()})
+    out += ("/-- guess branch: an HDU is taken (loop `break`s) when this holds; arguments are\n"
+            "`hasattr(hdu,'shape')`, `len(hdu.shape)`, `type(hdu) is BinTableHDU` (0/1) -/\n"
+            f"def guess_accepts (has_shape ndim is_bintable : Int) : Bool :=\n  decide {body}\n\n")
+    # rejection after the selection
+    rej = [n for n in ast.walk(fn) if isinstance(n, ast.If) and ast.unparse(n.test) == "type(hdu) is fits.hdu.table.BinTableHDU" and isinstance(n.body[0], ast.Raise)]
+    out += f"/-- a selected BinTableHDU is rejected with an exception -/\ndef rejects_bintable : Bool := {'true' if len(rej) == 1 else 'false'}\n\n"
+    # WCS key
+    wchain = None
+    for node in ast.walk(fn):
+        if isinstance(node, ast.If) and ast.unparse(node.test) == "isinstance(self._wcs_key, str)":
+            wchain = node
+    if wchain is None or not (len(wchain.orelse) == 1 and isinstance(wchain.orelse[0], ast.If) and ast.unparse(wchain.orelse[0].test) == "self._wcs_key is not None"):
+        raise ExtractError("wcs-key selection chain changed")
+    wl = wchain.orelse[0]
+    a1, a2, a3 = _branch_assigns(wchain.body), _branch_assigns(wl.body), _branch_assigns(wl.orelse)
+    if not (set(a1) == set(a2) == set(a3) == {"wcs_key"}):
+        raise ExtractError("wcs-key branches assign something else")
+    r1, _ = _sel_expr(a1["wcs_key"], {"self._wcs_key": ("k", "Str"), "path_index": ("i", "Nat")}, False)
+    r2, _ = _sel_expr(a2["wcs_key"], {"self._wcs_key": ("ks", "ListStr"), "path_index": ("i", "Nat")}, False)
+    r3, _ = _sel_expr(a3["wcs_key"], {}, False)
+    out += f"def wcs_scalar (k : String) (i : Nat) : String := {r1}\n"
+    out += f"def wcs_list (ks : List String) (i : Nat) : Option String := {r2}\n"
+    out += f"def wcs_default : String := {r3}\n\n"
+    # the yield and the shared loader
+    ys = [n for n in ast.walk(fn) if isinstance(n, ast.Yield)]
+    if len(ys) != 1 or ast.unparse(ys[0].value) != "(fits_path, hdu_index, hdu, wcs_key)":
+        raise ExtractError("_scan_hdus yield changed")
+    cls = None
+    for n in tree.body:
+        if isinstance(n, ast.ClassDef) and n.name == "SimpleFitsCollection":
+            cls = n
+    meth = {m.name: m for m in cls.body if isinstance(m, ast.FunctionDef)}
+    shared = (ast.unparse(meth["descriptions"].body[-1]) == "return self._load(False)"
+              and ast.unparse(meth["images"].body[-1]) == "return self._load(True)")
+    loops = [n for n in ast.walk(meth["_load"]) if isinstance(n, ast.For) and ast.unparse(n.iter) == "self._scan_hdus()"]
+    shared = shared and len(loops) == 1 and ast.unparse(loops[0].target) == "(fits_path, _hdu_index, hdu, wcs_key)"
+    exp = ast.unparse(meth["export_simple"].body[-1]) == "return [(t[0], t[1]) for t in self._scan_hdus()]"
+    out += ("/-- `descriptions()` and `images()` are `_load(False)` / `_load(True)`, and `_load` iterates\n`_scan_hdus()` once, using the HDU and key it yields -/\n"
+            f"def desc_and_images_share_scan : Bool := {'true' if shared else 'false'}\n"
+            f"/-- `export_simple()` lists `(path, hdu_index)` from the same `_scan_hdus()` -/\ndef export_uses_scan : Bool := {'true' if exp else 'false'}\n\n")
+    out += "end Scan\nend Gen\n"
+    return out
+
+
+MODULES["Collection"] = gen_collection
